@@ -30,9 +30,11 @@ the parse suite).  Proved here, for every table and every input:
   that names identify definitions, discharged for the live table by the kernel;
   `accepted_scripts_have_correctly_typed_arguments` — in the tree of an accepted script every node's definition was
   looked up for an identifier token of the script; every scalar argument is the text of a string / multi-line / number /
-  tag token of the script, recorded under a slot of that definition whose declared types admit that kind of token; every
-  bracketed list sits in a slot that admits string lists; every tag parameter sits under a slot whose `extra_arg` admits
-  it (so an ill-typed or invented argument is never part of an accepted tree).  Threaded by `Lemmas/TokThread.lean`; table
+  tag token of the script, recorded under a slot of that definition whose declared types admit that kind of token and whose
+  value list (if any) contains it, letter case aside; every
+  bracketed list sits in a slot that admits string lists and has no value list; every tag parameter sits under a slot whose `extra_arg` admits
+  its kind and, where it lists values, lists it (so an ill-typed, illegal or invented argument, or a bad value for a tag's
+  parameter, is never part of an accepted tree).  Threaded by `Lemmas/TokThread.lean`; table
   condition: the two slots `reassign_arguments` moves a value between have the same types (kernel-checked, live table).
 -/
 namespace C01
@@ -161,18 +163,18 @@ theorem accepted_scripts_have_correctly_typed_arguments_live (text : Bytes) (pre
     ∃ lr, Lex.lex text = some lr ∧ ∀ n ∈ r, Typed.NodeT (fun tok => tok ∈ lr.toks) Generated.builtinTable n :=
   Typed.accepted_tree_typed live_table_reassign_ok text prev r h
 
-/-- what `NodeT` says about one scalar argument, spelled out -/
+/-- what `NodeT` says about one scalar argument, spelled out: its slot, its token, the admitted kind and the admitted value -/
 theorem typed_argument_facts (TokP : Tok → Prop) (T : Table) (name : Bytes) (args extra : List Arg) (children : List Node)
     (c : List Bytes) (k : String) (raw : Bytes) (h : Typed.NodeT TokP T (.mk name args extra children c))
     (ha : Arg.str k raw ∈ args) :
-    ∃ d, TokThread.Named TokP T d ∧ d.name = name ∧ ∃ slot ∈ d.args, slot.name = k ∧
+    ∃ d, TokThread.Named TokP T d ∧ d.name = name ∧ ∃ slot ∈ d.args, slot.name = k ∧ Typed.valueIn slot raw ∧
       ∃ tok t, TokP tok ∧ tok.text = raw ∧ Args.validType t slot.types = true ∧
         (((tok.kind = .string ∨ tok.kind = .multiline) ∧ t = .string) ∨ (tok.kind = .number ∧ t = .number) ∨
           (tok.kind = .tag ∧ t = .tag)) := by
   cases h with
   | mk _ _ _ _ _ d hnamed hname hargs hextra hkids htest htests =>
-    obtain ⟨slot, hs, hsn, t, ⟨tok, htok, htext, hk⟩, hvt⟩ := hargs _ ha
-    exact ⟨d, hnamed, hname, slot, hs, hsn, tok, t, htok, htext, hvt, hk⟩
+    obtain ⟨slot, hs, hsn, hval, t, ⟨tok, htok, htext, hk⟩, hvt⟩ := hargs _ ha
+    exact ⟨d, hnamed, hname, slot, hs, hsn, hval, tok, t, htok, htext, hvt, hk⟩
 
 /-- non-vacuity of the nesting discipline: `( [ ] )` is balanced, `( [ ) ]` is not -/
 example : Brackets.Balanced [.left_parenthesis, .left_bracket, .right_bracket, .right_parenthesis] := by unfold Brackets.Balanced; decide
